@@ -122,6 +122,7 @@ namespace vf
         std::string property, job, tier;
         long states = 0, transitions = 0, validated = 0, evaluations = 0;
         std::unordered_set<uint64_t> nontrivial;  // distinct non-trivial cases (hashes)
+        long nontrivialCounted = 0;               // distinct by construction (enumeration indices): counted, not hashed, in very large products
         std::unordered_set<uint64_t> outcomes;    // distinct observed outcomes
         std::string rule;
         std::map<std::string, std::string> bounds;  // name -> JSON value
@@ -159,7 +160,7 @@ namespace vf
             o += "\"property\":" + jesc(property) + ",\"job\":" + jesc(job) + ",\"tier\":" + jesc(tier);
             o += ",\"states\":" + std::to_string(states) + ",\"transitions\":" + std::to_string(transitions);
             o += ",\"validated\":" + std::to_string(validated) + ",\"evaluations\":" + std::to_string(evaluations);
-            o += ",\"distinct_nontrivial\":" + std::to_string(nontrivial.size());
+            o += ",\"distinct_nontrivial\":" + std::to_string(nontrivial.size() + nontrivialCounted);
             o += ",\"distinct_outcomes\":" + std::to_string(outcomes.size());
             o += ",\"rule\":" + jesc(rule) + ",\"exhaustive\":" + (exhaustive ? "true" : "false");
             o += ",\"caps\":" + jstrs(caps);
